@@ -43,11 +43,21 @@ def compdb(repo=REPO):
     cfg = os.path.join(BUILD, "cfg")
     if repo != "/repo":
         cfg = os.path.join(BUILD, "cfg-" + hashlib.sha1(repo.encode()).hexdigest()[:8])
-    r = subprocess.run(["cmake", "-S", repo, "-B", cfg, "-G", "Ninja"], stdout=subprocess.PIPE,
-                       stderr=subprocess.STDOUT)
-    if r.returncode != 0:
-        raise AnalysisBroken("cmake configure failed:\n" + r.stdout.decode()[-2000:])
-    out = subprocess.run(["ninja", "-C", cfg, "-t", "compdb"], stdout=subprocess.PIPE, check=True).stdout
+    # checks may run concurrently: configuring one build directory from two processes at once corrupts it, so the step is serialised
+    import fcntl
+    os.makedirs(BUILD, exist_ok=True)
+    with open(cfg + ".lock", "w") as lk:
+        fcntl.flock(lk, fcntl.LOCK_EX)
+        r = subprocess.run(["cmake", "-S", repo, "-B", cfg, "-G", "Ninja"], stdout=subprocess.PIPE,
+                           stderr=subprocess.STDOUT)
+        if r.returncode != 0:
+            # a directory left half-configured by an interrupted run: start it afresh once
+            import shutil
+            shutil.rmtree(cfg, ignore_errors=True)
+            r = subprocess.run(["cmake", "-S", repo, "-B", cfg, "-G", "Ninja"], stdout=subprocess.PIPE, stderr=subprocess.STDOUT)
+        if r.returncode != 0:
+            raise AnalysisBroken("cmake configure failed:\n" + r.stdout.decode()[-2000:])
+        out = subprocess.run(["ninja", "-C", cfg, "-t", "compdb"], stdout=subprocess.PIPE, check=True).stdout
     db = json.loads(out)
     res = {}
     for e in db:
